@@ -643,6 +643,33 @@ def respell(item, rng, mode):
     return it
 
 
+def trailing_commas(items, rng, n):
+    """the same inputs with a comma added at the end (or the start) of one directly written instruction's argument list, or of an
+    #[o2o(..)] list: the two back-ends extract the argument tokens of a direct attribute in different ways (C18)"""
+    out = []
+    pool = [it for it in items if isinstance(it, Item)]
+    tries = 0
+    while pool and len(out) < n and tries < 20 * n:
+        tries += 1
+        it = rng.choice(pool).clone()
+        cands = [(lst, i) for lst in all_attr_lists(it) for i, a in enumerate(lst) if isinstance(a, Attr) and a.args is not None]
+        if not cands:
+            continue
+        lst, i = rng.choice(cands)
+        a = lst[i].clone()
+        r = rng.random()
+        if r < 0.7:
+            a.args = (a.args or '') + ','
+        elif r < 0.85:
+            a.args = (a.args or '') + ', ,'
+        else:
+            a.args = ', ' + (a.args or '')
+        lst[i] = a
+        it.meta = dict(it.meta, gen='trailing_comma')
+        out.append(it)
+    return out
+
+
 def toggle_parens(item):
     """C13 (OptionalParenthesizedTokenStream): an instruction without arguments written `name` <-> `name()`, bare or inside #[o2o(..)]"""
     it = item.clone()
@@ -1245,7 +1272,10 @@ def c10_cases(rng, n):
     for i in range(n):
         site = sites[i % len(sites)]
         tilde_ok = site in ('field_named', 'field_renamed', 'field_child', 'field_tuple', 'vfield_named', 'vfield_tuple', 'variant_from', 'nested_parent')
-        tt = rand_tt(rng, 0, tilde_ok)
+        # `~` where no member exists (type-level parameters, #[ghosts] entries, the default of a ghost field): the README allows `~` at member
+        # level only, the statement does not say what it stands for there - generated for the correspondence only (no expectation)
+        memberless_tilde = (not tilde_ok) and site != 'default_case' and rng.random() < 0.3
+        tt = rand_tt(rng, 0, tilde_ok or memberless_tilde)
         if site in ('vars', 'ghost', 'ghosts'):
             body = '{ %s }' % tt_text(tt)
         else:
@@ -1306,6 +1336,8 @@ def c10_cases(rng, n):
             it = Item('struct', 'S', 'named', '', [trait_attr('into', 'A'), trait_attr('into_existing', 'A')],
                       [Field('k', 'i32'), Field('par', 'P', [Attr('parent', '[into(m, %s)] y, z' % body)])])
             exp = {'from': None, 'into': tt_flat(tt, S, ['self', '.', 'par', '.', 'y'])}
+        if memberless_tilde and '~' in tt_text(tt):
+            exp = {'from': None, 'into': None}
         it.meta = {'gen': 'c10', 'site': site, 'expect': exp, 'expr': tt_text(tt)}
         out.append(it)
     return out
@@ -1323,6 +1355,9 @@ def c05_forms():
     for nm in GHOSTS:
         for ded in (None, 'A', 'B'):
             forms.append((nm, ded))
+    # as_type: its own applicable_to table (both from kinds; both into kinds and, directly, both into_existing kinds)
+    for ded in (None, 'A', 'B'):
+        forms.append(('as_type', ded))
     return forms
 
 
@@ -1337,6 +1372,8 @@ def c05_attr(form, k):
     nm, ded = form
     if nm in GHOSTS:
         return Attr(nm, '{ g%d() }' % k, o2o=(nm != 'ghost'), ded=ded)
+    if nm == 'as_type':
+        return Attr(nm, 'Ty%d' % k, o2o=True, ded=ded)
     return Attr(nm, 'e%d(~)' % k, ded=ded)
 
 
@@ -2239,6 +2276,8 @@ def c01_cases(rng, n, index_rename_on_tuple_dest=False):
                     continue
                 taken |= ks
                 params = ''
+                if named and hints[cpt] == '' and not cpt.startswith('(') and 'existing' not in nm and rng.random() < 0.2:
+                    params = rng.choice(['..upd(@)', '..{ base() }', '..Default::default()'])      # ..update: the base of the literal
                 attrs.append(trait_attr(nm, cpt, hint, 'Er', params))
         all_cps = sorted(hints)
         # struct-level ghosts (destination-side extra fields)
@@ -2510,8 +2549,8 @@ def c08_cases(rng, n):
             fields = [Field('a' if named else None, 'i32', [Attr('map', '~ + k0')] if use_k else []), Field('b' if named else None, 'i16', [Attr('map', 'bb')] if named and rng.random() < 0.5 else [])]
             if rng.random() < 0.2:
                 fields.append(Field('par' if named else None, 'P', [Attr('parent')]))
-            if spec['tail'] and spec['tail'][0] == 'update' and named and rng.random() < 0.5:
-                fields.append(Field('g', 'u8', [Attr('ghost')]))
+            if spec['tail'] and spec['tail'][0] == 'update' and named and len(attrs) == 1 and rng.random() < 0.5:
+                fields.append(Field('g', 'u8', [Attr('ghost')]))      # filled by ..update (only when every instruction has one)
             it = Item('struct', 'S', 'named' if named else 'tuple', '', attrs, fields)
         it.meta = {'gen': 'c08', 'spec': spec, 'instr': nm, 'cp': 'A'}
         out.append(it)
